@@ -214,7 +214,14 @@ pub fn worlds_for_c01() -> Vec<(Arc<World>, Vec<Sym>, &'static str)> {
     v.push((mk(spec_norm("W-norm")), alphabet_norm(), "norm"));
     v.push((mk(spec_min("W-min")), alphabet_main(), "main"));
     v.push((mk(spec_user("W-user2", 2, true)), alphabet_user(), "user"));
+    v.push((mk(spec_reordered("W-full-reordered")), alphabet_reordered(), "reordered"));
     v
+}
+
+/// for the world with reordered input plugins: text that the first plugins shorten (long marks,
+/// bracketed readings) in front of text that the table-driven plugin expands or folds
+pub fn alphabet_reordered() -> Vec<Sym> {
+    syms(&["京", "ー", "㍿"], &["Ａ", "(", "ア", ")", "都", "ｶ", "ﾞ", "a", "東"])
 }
 
 pub fn jobs(tier: Tier, oracle: fn(&TextTree, &str) -> Outcome) -> Vec<Box<dyn AnyJob>> {
